@@ -48,7 +48,8 @@ ASSUMPTIONS = [
     "virtual time (async_solipsism): delays elapse exactly",
 ]
 MIN_LABELS = {"C10": {"stop_or_cancel_inside_run": 0.15, "stop_or_cancel_inside_restart_delay": 0.01, "two_failures": 0.04,
-                      "failure_during_cancellation": 0.03, "limit_exhausted": 0.015}}
+                      "failure_during_cancellation": 0.03, "limit_exhausted": 0.015,
+                      "task_failed_while_wait_or_stop_pending": 0.01}}
 
 
 class _Base(BaseException):
@@ -60,15 +61,15 @@ def strategy(tier: str, pid: str = "C10") -> st.SearchStrategy[Any]:
     nruns, nops = (6, 15) if tier == "quick" else (8, 40)
     run_spec = st.tuples(
         st.integers(0, 3),
-        st.sampled_from(["return", "raise", "raise", "raise", "raise", "base", "block", "block", "block"]),
+        st.sampled_from(["return", "return", "raise", "raise", "raise", "raise", "base", "block", "block", "block"]),
         st.sampled_from(["propagate", "propagate", "raise", "raise", "raise_later", "swallow"]),
     ).map(list)
     adv = st.tuples(st.just("adv"), st.sampled_from([0.5, 1.0, 1.0, 1.5, 2.0, 2.5, 5.0])).map(list)
     op = st.one_of(
         adv, adv, adv, adv,
         st.sampled_from([["start"], ["start"], ["stop"], ["stop"], ["cancel"], ["wait"]]),
-        st.sampled_from([["start"], ["stop"], ["cancel"]]),
-        st.tuples(st.just("extra"), st.sampled_from(["finish", "fail", "block"])).map(list),
+        st.sampled_from([["start"], ["stop"], ["cancel"], ["wait"]]),
+        st.tuples(st.just("extra"), st.sampled_from(["finish", "fail", "fail", "block"])).map(list),
     )
     actor = st.fixed_dictionaries({
         "kind": st.just("actor"),
@@ -77,11 +78,13 @@ def strategy(tier: str, pid: str = "C10") -> st.SearchStrategy[Any]:
         "delay": st.sampled_from([0.0, 2.0, 2.0]),
         "ops": st.lists(op, min_size=3, max_size=nops).map(lambda ops: [["start"]] + ops),
     })
+    svc_op = st.sampled_from([["wait"], ["wait"], ["stop"], ["cancel"], ["extra", "fail"], ["extra", "fail"],
+                              ["extra", "finish"], ["extra", "block"], ["adv", 0.5], ["adv", 1.0], ["adv", 2.0], ["adv", 5.0]])
     service = st.fixed_dictionaries({
         "kind": st.just("service"),
-        "tasks": st.lists(st.tuples(st.sampled_from(["finish", "fail", "block"]), st.integers(0, 3)).map(list),
-                          min_size=1, max_size=4),
-        "ops": st.lists(op, min_size=1, max_size=8),
+        "tasks": st.lists(st.tuples(st.sampled_from(["finish", "finish", "finish", "fail", "block"]),
+                                    st.integers(0, 5)).map(list), min_size=1, max_size=4),
+        "ops": st.lists(svc_op, min_size=1, max_size=8),
     })
     group = st.fixed_dictionaries({
         "kind": st.just("group"),
@@ -182,6 +185,7 @@ def _run_actor(case: dict[str, Any], v: Verdict) -> None:
     trace: list[Any] = []
     ctl: list[Any] = []  # (time, op, payload)
     calls: list[dict[str, Any]] = []  # stop / wait tasks
+    extra_recs: list[dict[str, Any]] = []
 
     async def scenario() -> None:
         loop = asyncio.get_running_loop()
@@ -206,6 +210,9 @@ def _run_actor(case: dict[str, Any], v: Verdict) -> None:
                 if actor.tasks:  # only meaningful while the service holds tasks
                     t = asyncio.create_task(_extra(op[1]))
                     extras.append(t)
+                    rec = {"task": t, "t_add": now, "t_done": None}
+                    t.add_done_callback(lambda _t, r=rec: r.__setitem__("t_done", loop.time()))
+                    extra_recs.append(rec)
                     actor._tasks.add(t)  # pylint: disable=protected-access
                     ctl.append((now, "extra", op[1]))
             elif op[0] == "adv":
@@ -229,6 +236,7 @@ def _run_actor(case: dict[str, Any], v: Verdict) -> None:
 
     world.run(scenario)
     _judge_actor(case, v, trace, ctl, calls)
+    _judge_dropped_errors(v, calls, extra_recs)
 
 
 def _judge_actor(case: dict[str, Any], v: Verdict, trace: list[Any], ctl: list[Any], calls: list[dict[str, Any]]) -> None:
@@ -360,11 +368,41 @@ def _judge_actor(case: dict[str, Any], v: Verdict, trace: list[Any], ctl: list[A
                    f"{[(c['op'], c['t']) for c in candidates]} surfaced it")
 
 
+def _judge_dropped_errors(v: Verdict, calls: list[dict[str, Any]], extra_recs: list[dict[str, Any]]) -> None:
+    """A task added at any time that fails while a wait()/stop() is in progress must be surfaced.
+
+    Sound form: if some wait()/stop() call was pending when the task failed and later returned normally,
+    then at least one wait()/stop() call must have raised a group containing the task's error (with
+    concurrent waiters either of them may be the one; a call that raised for other reasons leaves the
+    error for the next call and proves nothing).
+    """
+    if v.violations:
+        return
+    for rec in extra_recs:
+        task = rec["task"]
+        if rec["t_done"] is None or task.cancelled() or task.exception() is None:
+            continue
+        err = task.exception()
+        # only calls that returned *normally* are conclusive: a call that raised because of other tasks'
+        # errors legitimately leaves this task's error for the next wait()/stop()
+        pending = [c for c in calls if c["t"] <= rec["t_done"] and c["done"] and c["exc"] is None
+                   and not c["task"].cancelled() and c["t_done"] is not None and c["t_done"] >= rec["t_done"]]
+        if any(c["t"] <= rec["t_done"] and (c["t_done"] is None or c["t_done"] >= rec["t_done"]) for c in calls):
+            v.labels.add("task_failed_while_wait_or_stop_pending")
+        if not pending:
+            continue
+        if not any(any(m is err for m in _group_members(c["exc"])) for c in calls if c["done"]):
+            v.fail(f"a task added at t={rec['t_add']} failed with {err!r} at t={rec['t_done']} while "
+                   f"{[(c['op'], c['t']) for c in pending]} was in progress, but no wait()/stop() call surfaced the error")
+            return
+
+
 # --------------------------------------------------------------------------- service kind
 
 
 def _run_service(case: dict[str, Any], v: Verdict) -> None:
     calls: list[dict[str, Any]] = []
+    extra_recs: list[dict[str, Any]] = []
     state: dict[str, Any] = {}
 
     class Svc(BackgroundService):
@@ -389,10 +427,15 @@ def _run_service(case: dict[str, Any], v: Verdict) -> None:
             elif op[0] in ("stop", "wait"):
                 snapshot = set(svc.tasks)
                 task = asyncio.create_task(svc.stop() if op[0] == "stop" else svc.wait())
-                calls.append({"op": op[0], "t": now, "task": task, "snapshot": snapshot})
+                call = {"op": op[0], "t": now, "task": task, "snapshot": snapshot, "t_done": None}
+                task.add_done_callback(lambda _t, c=call: c.__setitem__("t_done", loop.time()))
+                calls.append(call)
             elif op[0] == "extra" and svc.tasks:
                 t = asyncio.create_task(_extra(op[1]))
                 all_tasks.add(t)
+                rec = {"task": t, "t_add": now, "t_done": None}
+                t.add_done_callback(lambda _t, r=rec: r.__setitem__("t_done", loop.time()))
+                extra_recs.append(rec)
                 svc._tasks.add(t)  # pylint: disable=protected-access
             elif op[0] == "adv":
                 await asyncio.sleep(op[1])
@@ -428,6 +471,7 @@ def _run_service(case: dict[str, Any], v: Verdict) -> None:
             want = [t.exception() for t in c["snapshot"] if t.done() and not t.cancelled() and t.exception() is not None]
             if {id(m) for m in members} != {id(w) for w in want}:
                 v.fail(f"{name} surfaced {[repr(m) for m in members]}, its tasks ended with {[repr(w) for w in want]}")
+    _judge_dropped_errors(v, calls, extra_recs)
     v.labels.add("kind_service")
     v.nontrivial = bool(stops) and len(case["tasks"]) >= 2
 
